@@ -1,18 +1,36 @@
 CHECK = {
     "level": "exploration",
-    "rule": ("geometry zoo of C03 (all levels; involute / duplicate-surface inputs not judged) x "
-             "interior lattice n^3 (+ the midpoints of the first 3 segments along 3 rays from each "
-             "point, reached by navigation) : find_safety() and find_safety(max) compared with the "
-             "navigator's own find_next_step over 26 lattice + 12/36 rotated-Fibonacci directions "
-             "and with the independent point-location oracle on a 64/200-point Fibonacci sphere of "
-             "radius 0.999 x safety. non-trivial = distinct (geometry, volume chain) with a positive "
-             "safety."),
+    "rule": ("geometry zoo of C03 + hex-array (all levels; involute / duplicate-surface inputs not "
+             "judged) x points {(1) interior lattice n^3; (2) one oracle-placed representative per "
+             "distinct oracle volume chain (global 17^3/31^3 scan + per-universe-instance grids of the "
+             "critical coordinates of the stored surfaces, so that every volume of every nested "
+             "universe is sampled); (3) oracle-placed points next to every face of the located volume "
+             "at every level (foot point X on the surface, X -+ delta n, delta = 0.003/0.02 (thorough: 0.001/0.003/0.02/0.08) x "
+             "scale, both sides, 1/4 foot points per (chain, level, face)); (4) the exactly degenerate interior "
+             "points of the stored surfaces: sphere centres and up to 3 points on every cylinder axis, "
+             "of every universe instance}; (1)+(2) also the "
+             "midpoints of the first 3 segments along 3 rays, reached by navigation : find_safety(), "
+             "find_safety(0.5 scale) and find_safety(0.1 s) compared with the navigator's own "
+             "find_next_step over 26 lattice + 12/36 rotated-Fibonacci directions (+ the direction to "
+             "X), with the independent point-location oracle on a 64/200-point Fibonacci sphere of "
+             "radius 0.999 x safety, and at (3) with the exact bound s <= delta + probe when the "
+             "oracle locates another volume behind X. An infinite safety is judged like any other "
+             "value. Navigated states (after find+move_internal(d/2), then move_internal(position), "
+             "then set_dir) must report the safety of a fresh state. non-trivial = distinct (geometry, "
+             "volume chain) with a positive safety."),
     "assumptions": [
-        "directions / sphere points between the alphabet letters are not covered",
+        "directions / sphere points between the alphabet letters are covered only at the oracle-placed "
+        "face points (exact bound towards the nearest point of that face)",
         "oracle makes no claim within 10 tol of a surface",
+        "a violation at an exactly degenerate point (4) that disappears 1e-6 x scale beside it is "
+        "reported under its own signature safety:face-ignored-at-exact-{cylinder-axis,sphere-centre}",
+        "volumes the oracle scan does not find (thinner than the 17^3/31^3 lattice and not delimited by "
+        "axis-aligned/centred surfaces of their own universe) get no representative",
     ],
-    "bounds": {"quick": {"lattice": 5, "directions": 38, "sphere_points": 64},
-               "thorough": {"lattice": 9, "directions": 62, "sphere_points": 200}},
+    "bounds": {"quick": {"lattice": 5, "directions": 38, "sphere_points": 64, "scan_lattice": 17,
+                         "foot_points_per_face": 1, "deltas": [0.003, 0.02]},
+               "thorough": {"lattice": 9, "directions": 62, "sphere_points": 200, "scan_lattice": 31,
+                            "foot_points_per_face": 4, "deltas": [0.001, 0.003, 0.02, 0.08]}},
     "parts": [
         {"name": "safety", "harness": "c11_safety", "flavour": "rel",
          "shards": {"quick": 16, "thorough": 16}, "deadline": {"quick": 90, "thorough": 900}},
@@ -26,7 +44,7 @@ META = {
     "text": ("Bounded-exhaustive exploration: for every point of the lattice in every geometry of the "
              "zoo the safety is compared with all directional distances of the alphabet and with the "
              "oracle on a sphere; a non-conservative safety for any volume/face type combination in "
-             "the zoo at any lattice point is found, which the hand-picked points of the unit tests "
-             "cannot."),
+             "the zoo at any lattice point, in any volume chain and next to any face is found, which "
+             "the hand-picked points of the unit tests cannot."),
     "note": "Claims hold for the zoo, lattice and direction alphabets listed; see C03 for the oracle.",
 }
